@@ -10,10 +10,14 @@ import vlib
 from vlib import Machinery, log
 
 
-def mc(ctx, depth, variant, liveness=True, timeout=1800):
-    cfg = "SPECIFICATION Spec\nCONSTANTS Depth = %d Variant = \"%s\"\nINVARIANTS Correct NeverAboveStop\n%s" % (
-        depth, variant, "PROPERTY Terminates\n" if liveness else "")
+def mc(ctx, depth, variant, liveness=True, timeout=1800, spellings="AllSpellings"):
+    cfg = "SPECIFICATION Spec\nCONSTANTS Depth = %d Variant = \"%s\" Spellings <- %s\nINVARIANTS Correct NeverAboveStop\n%s" % (
+        depth, variant, spellings, "PROPERTY Terminates\n" if liveness else "")
     return vlib.tlc(ctx, "Find", cfg, workers=min(12, vlib.NCPU), timeout=timeout, heap="10g")
+
+
+SPELLINGS = [("clean", "clean"), ("slash", "clean"), ("clean", "slash"), ("slash", "slash"), ("dotted", "clean"), ("clean", "dotted"),
+             ("rel", "clean"), ("clean", "rel"), ("rel", "rel")]
 
 
 def dir_opts(full):
@@ -59,10 +63,27 @@ def scenarios(tier, seed):
             stop = rnd.choice(list(range(n)) + [-1])
             scen.append({"id": len(scen) + 1, "levels": [rnd.choice(dir_opts(True)) for _ in range(n)], "u": rnd.choice(dir_opts(True)),
                          "start": start, "stop": stop})
+    # other spellings of the same two directories (Find.tla: Spellings): trailing separator, `.` / `x/..` elements, relative to a
+    # working directory at or above the directory (every such cwd)
+    base = list(scen)
+    per_pair = 1500 if tier == "quick" else 12000
+    for ssp, tsp in SPELLINGS[1:]:
+        for b in rnd.sample(base, min(per_pair, len(base))):
+            anc = lambda l: ([-1] if l == -1 else list(range(l + 1))) + [-2]
+            cw = set(anc(b["start"])) if ssp == "rel" else None
+            if tsp == "rel":
+                cw = set(anc(b["stop"])) if cw is None else cw & set(anc(b["stop"]))
+            if b["start"] >= len(b["levels"]) or b["stop"] >= len(b["levels"]):
+                continue
+            for c in sorted(cw) if cw is not None else [-2]:
+                scen.append(dict(b, startSp=ssp, stopSp=tsp, cwd=c))
     # de-duplicate
     seen, out = set(), []
     for s in scen:
-        k = json.dumps({x: s[x] for x in ("levels", "u", "start", "stop")}, sort_keys=True)
+        s.setdefault("startSp", "clean")
+        s.setdefault("stopSp", "clean")
+        s.setdefault("cwd", -2)
+        k = json.dumps({x: s[x] for x in ("levels", "u", "start", "stop", "startSp", "stopSp", "cwd")}, sort_keys=True)
         if k not in seen:
             seen.add(k)
             s["id"] = len(out) + 1
@@ -87,7 +108,7 @@ def tla_rec(s, r):
     if r.get("outcome") == "driver-error":
         raise Machinery("find driver error: %s" % r.get("err"))
     return {"id": s["id"], "spok": [l["spok"] for l in s["levels"]], "uspok": s["u"]["spok"], "start": s["start"], "stop": s["stop"],
-            "outcome": r.get("outcome"), "level": r.get("level", -5)}
+            "startSp": s["startSp"], "stopSp": s["stopSp"], "cwd": s["cwd"], "outcome": r.get("outcome"), "level": r.get("level", -5)}
 
 
 def judge(ctx, recs, k=0):
@@ -107,12 +128,22 @@ def judge(ctx, recs, k=0):
 def run(ctx):
     tier = ctx.tier
     driver = vlib.build_driver(ctx)
-    m = mc(ctx, 2 if tier == "quick" else 3, "fixed")
+    # every spelling pair at depth 1 (quick) / 2 (thorough), and clean paths one level deeper (after the Abs step the graph is the same)
+    d_all = 1 if tier == "quick" else 2
+    m = mc(ctx, d_all, "fixed")
     if m.error or m.violated:
         raise Machinery("Find model check failed: %s %s" % (m.violated, (m.error or "")[:1500]))
-    pin = mc(ctx, 1, "pinned", liveness=True, timeout=600)
+    m3 = mc(ctx, d_all + 1, "fixed", spellings="CleanOnly")
+    if m3.error or m3.violated:
+        raise Machinery("Find model check (clean paths, depth %d) failed: %s %s" % (d_all + 1, m3.violated, (m3.error or "")[:1500]))
+    m.distinct += m3.distinct
+    m.generated += m3.generated
+    pin = mc(ctx, 1, "pinned", liveness=True, timeout=600, spellings="CleanOnly")
     if not pin.violated:
         raise Machinery("vacuity probe: pinned Find variant not refuted")
+    strs = mc(ctx, 1, "strings", liveness=True, timeout=600)
+    if strs.violated != "Correct":
+        raise Machinery("vacuity probe: the walk that compares path strings is not refuted by the spellings (%s)" % (strs.violated or strs.error))
     log("Find MC: %d distinct states (every configuration, start, stop); terminates; pinned variant refuted (%s)" % (m.distinct, pin.violated))
     scen = scenarios(tier, ctx.seed)
     nsh = vlib.NCPU
@@ -146,7 +177,7 @@ def run(ctx):
     seen = set()
     for s, r in bad:
         shape = (r.get("outcome"), s["start"] == s["stop"], s["start"] == -1 or s["stop"] == -1 or s["stop"] > s["start"],
-                 s["levels"][s["stop"]]["before"] if s["stop"] >= 0 else None)
+                 s["levels"][s["stop"]]["before"] if s["stop"] >= 0 else None, s["startSp"], s["stopSp"])
         if shape in seen:
             continue
         seen.add(shape)
@@ -155,24 +186,27 @@ def run(ctx):
         if not v["Conforms_C17"]:
             ctx.unreproduced = getattr(ctx, "unreproduced", 0) + 1
             continue
-        vlib.report(ctx, "Conforms_C17:%s:%s" % (again.get("outcome"), "unconstrained" if shape[2] else ("start=stop" if shape[1] else "below")),
-                    "Find(start=L%s, stop=L%s) over levels %s (U=%s) => %s level=%s" % (s["start"], s["stop"], s["levels"], s["u"], again.get("outcome"), again.get("level")),
+        vlib.report(ctx, "Conforms_C17:%s:%s:%s-%s" % (again.get("outcome"), "unconstrained" if shape[2] else ("start=stop" if shape[1] else "below"), s["startSp"], s["stopSp"]),
+                    "Find(start=L%s [%s], stop=L%s [%s], cwd=L%s) over levels %s (U=%s) => %s level=%s" % (
+                        s["start"], s["startSp"], s["stop"], s["stopSp"], s["cwd"], s["levels"], s["u"], again.get("outcome"), again.get("level")),
                     {"property": "C17", "family": "find", "scenario": s, "observed": again})
-        if len(seen) >= 6:
+        if len(ctx.violations) >= 6:
             break
     rnd = random.Random(ctx.seed)
     vlib.write_evidence(ctx, "model_checking", {
         "states": m.distinct, "transitions": m.generated,
         "traces_validated_against_impl": len(recs),
-        "samples": [{"scenario": {k: s[k] for k in ("levels", "u", "start", "stop")}, "observed": {k: r.get(k) for k in ("outcome", "level")}} for s, r in rnd.sample(pairs, 3)],
+        "samples": [{"scenario": {k: s[k] for k in ("levels", "u", "start", "stop", "startSp", "stopSp", "cwd")}, "observed": {k: r.get(k) for k in ("outcome", "level")}} for s, r in rnd.sample(pairs, 3)],
         "evaluations": len(recs),
         "distinct_nontrivial": ncf + nun,
         "rule": "directory chains of depth <= %d (each level: no / regular-file / directory entry named spokfile, other entries sorting before and/or after "
                 "it where they can matter) x every start level x every stop in {each level, an unrelated directory}, built on disk and searched with "
-                "file.Find under a watchdog; distinct_nontrivial = calls with start at or below stop that must find a spokfile (%d) + calls whose start is "
-                "not below stop (%d), as computed by TLC" % (2 if tier == "quick" else 4, ncf, nun),
+                "file.Find under a watchdog; besides the clean absolute spelling of the two paths, samples with a trailing separator, `.`/`x/..` elements and "
+                "paths relative to every working directory at or above them (%d calls); distinct_nontrivial = calls with start at or below stop that must find a spokfile (%d) + calls whose start is "
+                "not below stop (%d), as computed by TLC" % (2 if tier == "quick" else 4, sum(1 for s, _ in pairs if (s["startSp"], s["stopSp"]) != ("clean", "clean")), ncf, nun),
         "model": {"module": "Find", "depth": 2 if tier == "quick" else 3, "distinct_states": m.distinct, "liveness": "Terminates",
-                  "pinned_variant_refuted_by": pin.violated},
+                  "spellings": "all 9 pairs at depth %d; clean at depth %d" % (d_all, d_all + 1),
+                  "pinned_variant_refuted_by": pin.violated, "strings_variant_refuted_by": strs.violated},
         "judge": {"module": "FindJudge", "relation": "Conforms_C17", "not_run_after_hangs": notrun},
         "selftest_corrupted_record_rejected": st,
         "exhaustive": tier == "quick",
@@ -183,6 +217,9 @@ def replay(ctx, path):
     rp = json.load(open(path))
     driver = vlib.build_driver(ctx)
     s = rp["scenario"]
+    s.setdefault("startSp", "clean")
+    s.setdefault("stopSp", "clean")
+    s.setdefault("cwd", -2)
     again = drive(ctx, driver, [s], 0)[0]
     v = judge(ctx, [tla_rec(s, again)])
     log("observed: %s" % again)
